@@ -404,6 +404,33 @@ func deliverAndExercise(t *tape.Tape, res *Result, enc *errorspb.EncodedError, c
 
 var hostileWire = []string{"", "‹", "›", "‹x›", "a\nb", "\n", "\x00", "\xff\xfe", "%!v(", "%s%d", "‹\n›", "?", ": ", "x: y: z"}
 
+var garbleBits = []string{"[", "]", "[..", "(", ")", "{", ".", "/", ":", "\n", "\n\t", "\t", " ", "%", "\x00", "‹", "…", ".go:", ":-1", ":99999999999999999999"}
+
+// garble applies 1..3 small edits to s.
+func garble(t *tape.Tape, s string) string {
+	for n := 1 + t.Draw(3); n > 0 && len(s) > 0; n-- {
+		pos := t.Draw(len(s) + 1)
+		switch t.Draw(4) {
+		case 0:
+			s = s[:pos]
+		case 1:
+			s = s[:pos] + garbleBits[t.Draw(len(garbleBits))] + s[pos:]
+		case 2:
+			if pos < len(s) {
+				s = s[:pos] + s[pos+1:]
+			}
+		default:
+			// cut a piece out of the middle
+			end := pos + t.Draw(40)
+			if end > len(s) {
+				end = len(s)
+			}
+			s = s[:pos] + s[end:]
+		}
+	}
+	return strings.ToValidUTF8(s, "?")
+}
+
 func (c05) runSeeded(t *tape.Tape, tier Tier) *Result {
 	res := &Result{}
 	res.Stats.Faults = map[string]int{}
@@ -440,7 +467,16 @@ func (c05) runSeeded(t *tape.Tape, tier Tier) *Result {
 		w := nodes[t.Draw(len(nodes))]
 		d := w.Details()
 		var f string
-		switch t.Draw(7) {
+		switch t.Draw(8) {
+		case 7:
+			// a reportable string (often a printed stack trace that the
+			// receiver parses) arrives garbled: truncated, or with a few
+			// characters inserted or removed
+			if len(d.ReportablePayload) > 0 {
+				k := t.Draw(len(d.ReportablePayload))
+				d.ReportablePayload[k] = garble(t, d.ReportablePayload[k])
+			}
+			f = "string=garbled(reportable)"
 		case 0:
 			idx := t.Draw(pfOtherBase + len(world.PayloadCatalog()))
 			a, class, ok := payloadFault(idx, &world.Exemplar{Details: *d})
